@@ -133,6 +133,27 @@ def routable(d):
                   z3.Or(z3.Not(has(d, "result")), V.is_dict(val(d, "result"))))
 
 
+# what one batch member contributes to the read stream: itself iff it validates as a message (`delivers` is the
+# validation outcome, a function of the data: routable => delivers, not an object => not delivers)
+delivers = z3.Function("c11_delivers", V.Val, z3.BoolSort())
+EB = z3.Function("c11_EB", V.SeqVal, V.SeqVal)          # flat-map of docb over the members, specified by its unfolding
+
+
+def docb(x):
+    return z3.If(delivers(x), z3.Unit(x), z3.Empty(V.SeqVal))
+
+
+def delivered_data(I, inc):
+    """ghost: the data of the messages routed so far, kept in a field of the read stream's send end (heap state, so it
+    is havocked and constrained by loop invariants like everything else)"""
+    v, h = I.get_field(inc, "delivered_data")
+    return Val.items(z3.If(h, v, V.VList([])))
+
+
+def set_delivered_data(I, inc, seq):
+    I.set_attr(inc, "delivered_data", V.VList(seq))
+
+
 class RouteModular(Contract):
     """call-site form of _route_response's proved contract: a routable message is delivered as an object carrying
     the given members; anything else is delivered (if it happens to validate) or dropped; never raises."""
@@ -141,12 +162,26 @@ class RouteModular(Contract):
     def apply(self, I, args, kwargs, node):
         transport, d = args[0], args[1]
         inc, _ = I.get_field(transport, "_incoming_send")
+        if I.choose(V.is_list(d), "body_is_a_batch"):
+            # proved by RouteResponseBatch: the members that validate are delivered, in order, one message each
+            items = Val.items(d)
+            I.ghost["batch_path"] = items
+            I.counter += 1
+            R = z3.Const(f"batch_msgs~{I.counter}", V.SeqVal)
+            I.assume(z3.Length(R) == z3.Length(EB(items)))
+            a = Val.items(E.gfield(I, inc, "attempted"))
+            I.set_attr(inc, "attempted", V.VList(z3.Concat(a, R)))
+            set_delivered_data(I, inc, z3.Concat(delivered_data(I, inc), EB(items)))
+            E.checkpoint_nofire(I)
+            return V.NONE
         deliver = True
         if not I.choose(routable(d), "routable"):
             deliver = I.choose_n(2, "route_outcome") == 0
             if deliver:
                 I.assume(V.is_dict(d))
+        I.assume(delivers(d) == z3.BoolVal(bool(deliver)))
         if deliver:
+            set_delivered_data(I, inc, z3.simplify(z3.Concat(delivered_data(I, inc), z3.Unit(d))))
             cd = I.ctx.env_class(ST.MESSAGE)
 
             def get(n):
@@ -173,6 +208,7 @@ class SendInternal(Contract):
         self.posts, self.client_kwargs = [], []
         tcd = I.ctx.repo_class(I.ctx.repo.klass(f"{HTTP}::StreamableHTTPTransport"))
         self.incoming = E.make_write_stream(I, "incoming")
+        I.set_attr(self.incoming, "delivered_data", V.VList([]), record=False)
         self.old_session = I.fresh("session_id")
         I.assume(z3.Or(V.is_none(self.old_session), z3.And(V.is_str(self.old_session), z3.Length(Val.s(self.old_session)) > 0)))
         cfg_headers = I.fresh("cfg_headers")
@@ -230,9 +266,25 @@ class SendInternal(Contract):
                                      for n in ("id", "method", "params", "result", "error")])
 
     def post(self, I, result):
-        dl = self.delivered(I)
         nm = self.name
         watch = {"status": V.VInt(self.status), "headers": self.rh, "body": V.VStr(self.text), "request_id": self.mid}
+        items = I.ghost.get("batch_path")
+        if items is not None:
+            # the body was a JSON array: its members that are messages reach the read stream, in order, nothing else
+            w = Val.items(E.gfield(I, self.incoming, "attempted"))
+            data = ST.json_val(self.text)
+            first = items[0]
+            I.assume(z3.Implies(z3.Length(items) >= 1,
+                                EB(items) == z3.Concat(docb(first), EB(z3.Extract(items, 1, z3.Length(items) - 1)))))   # unfolding
+            dd = delivered_data(I, self.incoming)
+            I.oblige(nm("json_batch_body_delivers_its_members"),
+                     z3.And(V.is_list(data), items == Val.items(data), dd == EB(items), z3.Length(w) == z3.Length(EB(items))), watch=watch)
+            I.assume(z3.Implies(routable(first), delivers(first)))
+            I.oblige(nm("json_batch_body_delivers_its_first_message_first"),
+                     z3.Implies(z3.And(z3.Length(items) >= 1, routable(first)), z3.And(z3.Length(w) >= 1, dd[0] == first)), watch=watch)
+            I.oblige(nm("exactly_one_post_per_message"), z3.BoolVal(len(self.posts) == 1))
+            return
+        dl = self.delivered(I)
         if dl is None:
             I.oblige(nm("delivery_is_observable"), z3.BoolVal(False))
             return
@@ -298,11 +350,6 @@ class SendInternal(Contract):
         I.oblige(nm("json_body_with_one_message_delivers_exactly_that_message"),
                  z3.Implies(single, z3.And(z3.BoolVal(n == 1), self.is_the_servers_message(I, dl[0], data) if n == 1 else z3.BoolVal(False))),
                  watch=watch)
-        batch = z3.And(json_case, body_ok, V.is_list(data), z3.Length(Val.items(data)) >= 1,
-                       is_message_object(Val.items(data)[0]))
-        I.oblige(nm("json_batch_body_delivers_its_members"),
-                 z3.Implies(batch, z3.And(z3.BoolVal(n >= 1), self.is_the_servers_message(I, dl[0], Val.items(data)[0]) if n >= 1 else z3.BoolVal(False))),
-                 watch=watch, classes={"json-batch-array-body-dropped": batch})
         junk = z3.And(json_case, body_ok, z3.Not(V.is_list(data)), z3.Not(is_message_object(data)))
         if self.kind == "request":
             I.oblige(nm("json_body_that_is_no_message_yields_one_error_with_the_request_id"),
@@ -343,6 +390,7 @@ class RouteResponse(Contract):
         self.transport = I.new_object(tcd, {"_pending_requests": V.VDict([]), "_incoming_send": self.incoming})
         d = I.fresh("response_data")
         I.assume(json_value(d))
+        I.assume(z3.Not(V.is_list(d)))                 # arrays: RouteResponseBatch
         I.assume(z3.Implies(V.is_dict(d), Val.dsize(d) >= 0))
         self.d = d
         return [self.transport, d], {}
@@ -370,6 +418,58 @@ class RouteResponse(Contract):
 
     def post_exc(self, I, e):
         I.oblige(self.name(f"never_raises[{e.cls_name}]"), z3.BoolVal(e.cls_name == "CancelledError"))
+
+
+class RouteResponseBatch(Contract):
+    """_route_response(array): every member is routed through _route_response's own contract, in order: the data that
+    reaches the read stream is EB(members), one message per delivered member; never raises.  (Members are JSON objects
+    or scalars; an array nested inside a batch is outside the quantifier, as in C13.)"""
+    key = f"{HTTP}::StreamableHTTPTransport._route_response"
+    prop = "C11"
+    covers = ("return",)
+
+    def name(self, clause):
+        return f"C11.StreamableHTTPTransport._route_response.batch.{clause}"
+
+    def setup(self, I):
+        I.c11 = self
+        tcd = I.ctx.repo_class(I.ctx.repo.klass(f"{HTTP}::StreamableHTTPTransport"))
+        self.incoming = E.make_write_stream(I, "incoming")
+        self.transport = I.new_object(tcd, {"_pending_requests": V.VDict([]), "_incoming_send": self.incoming})
+        d = I.fresh("response_batch")
+        I.assume(V.is_list(d))
+        self.items = Val.items(d)
+        I.set_attr(self.incoming, "delivered_data", V.VList([]), record=False)
+        I.assume(EB(z3.Empty(V.SeqVal)) == z3.Empty(V.SeqVal))
+        return [self.transport, d], {}
+
+    def post(self, I, result):
+        w = Val.items(E.gfield(I, self.incoming, "attempted"))
+        I.oblige(self.name("delivers_the_members_that_are_messages_in_order"), delivered_data(I, self.incoming) == EB(self.items))
+        I.oblige(self.name("one_message_per_delivered_member"), z3.Length(w) == z3.Length(EB(self.items)))
+
+    def post_exc(self, I, e):
+        I.oblige(self.name(f"never_raises[{e.cls_name}]"), z3.BoolVal(e.cls_name == "CancelledError"))
+
+
+def route_batch_inv(I, phase):
+    c = I.c11
+    if not isinstance(c, RouteResponseBatch):
+        return []
+    name = "C11.StreamableHTTPTransport._route_response.batch_loop"
+    items = c.items
+    i = Val.i(I.frame.vars["__i0"])
+    w = Val.items(E.gfield(I, c.incoming, "attempted"))
+    done = z3.Extract(items, 0, i)
+    if phase == "head":
+        x = items[i]
+        I.assume(z3.Implies(i < z3.Length(items),
+                            z3.And(EB(z3.Concat(done, z3.Unit(x))) == z3.Concat(EB(done), docb(x)),
+                                   z3.Extract(items, 0, i + 1) == z3.Concat(done, z3.Unit(x)),
+                                   json_value(x), z3.Not(V.is_list(x)), z3.Implies(V.is_dict(x), Val.dsize(x) >= 0))))
+        I.assume(z3.Extract(items, 0, z3.Length(items)) == items)
+    return [(f"{name}.delivered_are_the_message_members_so_far_in_order", delivered_data(I, c.incoming) == EB(done)),
+            (f"{name}.one_message_per_delivered_member", z3.Length(w) == z3.Length(EB(done)))]
 
 
 class SenderLoop(Contract):
@@ -464,14 +564,16 @@ class C11(Check):
                 f"{HTTP}::StreamableHTTPTransport._send_message_internal": SendInternalModular()}
 
     def contracts(self):
-        return [SendInternal("request"), SendInternal("notification"), RouteResponse(), SenderLoop(), SendViaHttp()]
+        return [SendInternal("request"), SendInternal("notification"), RouteResponse(), RouteResponseBatch(), SenderLoop(),
+                SendViaHttp()]
 
     def loop_invariants(self):
         def inv(I, phase):
             h = I.frame.vars.get("headers")
             return [("C11._send_message_internal.header_loop.request_headers_stay_a_dict_with_the_fixed_members",
                      z3.And(V.is_dict(h), has(h, "Content-Type"), has(h, "Accept"), Val.dsize(h) >= 2))]
-        return {(f"{HTTP}::StreamableHTTPTransport._send_message_internal", 0): inv}
+        return {(f"{HTTP}::StreamableHTTPTransport._send_message_internal", 0): inv,
+                (f"{HTTP}::StreamableHTTPTransport._route_response", 0): route_batch_inv}
 
     def canaries(self):
         return [
@@ -534,6 +636,8 @@ class SseText(Contract):
         "comment_and_id_lines": ([": keepalive\nid: 7\nevent: message\ndata: ", 0, "\n\n"], 1, [0]),
         "other_event_type_is_not_a_message": (["event: ping\ndata: ", 0, "\n\n"], 1, []),
         "no_event_field": (["data: ", 0, "\n\n"], 1, [0]),
+        # a typed event without data ends at its blank line: the next event starts with the default type again
+        "dataless_typed_event_then_untyped_event": (["event: ping\n\ndata: ", 0, "\n\n"], 1, [0]),
         # thorough tier only
         "three_events_mixed_line_ends": (["event: message\r\ndata: ", 0, "\r\n\r\nevent: message\ndata: ", 1,
                                           "\n\n: c\nevent: message\ndata: ", 2, "\n\n"], 3, [0, 1, 2]),
